@@ -327,6 +327,47 @@ theorem c09_cgi_stdin (bodyLen : Int) (segs : List Bytes) :
 
 example : cgiStdin 3 [ofString "a", [], ofString "bc"] = { out := ofString "abc", eof := true } := by decide
 
+/-- h2_recv_data() / h2_recv_end_data(): a request body sent as DATA frames — any number of
+    frames, any sizes, any padding, END_STREAM on the last, Content-Length absent or equal to the
+    amount of data — arrives as exactly the concatenated frame data: no padding, nothing lost, no
+    RST_STREAM, reqbody_length = the amount of data.  (Independence of the segmentation of the
+    frame bytes into network reads is what the correspondence checks against h2_parse_frames().) -/
+theorem c09_h2_data_body (cl : Int) (fs : List DataFrame) (last : DataFrame)
+    (hne : ∀ f ∈ fs, f.endStream = false) (hlast : last.endStream = true)
+    (hcl : cl = -1 ∨ cl = (((framesData (fs ++ [last])).length : Nat) : Int)) :
+    h2Body cl (fs ++ [last]) =
+      { out := framesData (fs ++ [last]), bodyLen := (((framesData (fs ++ [last])).length : Nat) : Int),
+        state := .halfClosedRemote, rst := 0 } := by
+  have hdata : framesData (fs ++ [last]) = framesData fs ++ last.payload := by simp [framesData]
+  unfold h2Body
+  rw [List.foldl_append]
+  rw [h2_fold_open fs hne { bodyLen := cl } rfl (by
+    rcases hcl with h | h
+    · left; exact h
+    · right
+      show ((([] : Bytes).length + (framesData fs).length : Nat) : Int) ≤ cl
+      rw [h, hdata, List.length_append]
+      simp only [List.length_nil]
+      push_cast
+      omega)]
+  simp only [List.foldl_cons, List.foldl_nil, List.nil_append]
+  unfold h2RecvData
+  simp only [ne_eq, not_true_eq_false, ↓reduceIte, hlast]
+  rw [hdata]
+  rcases hcl with h | h
+  · subst h
+    simp
+  · have h2 : ¬ (cl ≥ 0 ∧ cl < (((framesData fs).length + last.payload.length : Nat) : Int)) := by
+      rw [h, hdata, List.length_append]; omega
+    have h3 : ¬ (cl = -1) := by rw [h]; omega
+    have h4 : ¬ (cl ≠ (((framesData fs).length + last.payload.length : Nat) : Int)) := by
+      rw [h, hdata, List.length_append]; simp
+    simp only [h2, h3, h4, ↓reduceIte]
+    rw [h, hdata]
+
+example : h2Body (-1) [{ payload := ofString "he" }, { payload := ofString "llo", pad := some 3, endStream := true }] =
+    { out := ofString "hello", bodyLen := 5, state := .halfClosedRemote, rst := 0 } := by decide
+
 /-! ## reverse proxy -/
 
 /-- proxy_create_env(): for every configuration and field, a field that is forwarded is not a
